@@ -159,27 +159,34 @@ theorem copyFixed_length (n : Nat) (src : Bytes) : (copyFixed n src).length = n 
   simp [copyFixed]; omega
 
 
-/-- Which of the missing guards (model lines marked FIX) are switched on.  `Fix.none` is the code that
-EXISTS in /repo (what the driver runs and what the witness theorems are about); `Fix.all` is the same
-code with every missing guard added.  One flag per defect, so that a repair of a single function in
-/repo is mirrored by flipping a single flag in `Driver/C16.lean`. -/
+/-- One flag per guard that the framework found MISSING in /repo (model lines marked FIX).  A flag that is
+`true` = the guard is part of the code.  `Fix.current` is the code that EXISTS in /repo (what the driver
+runs and what the property theorems are about): the flags of the guards that have been added since
+(`fix:` commits) are on.  `Fix.none` is the code before any of these repairs (kept for the
+"guard is needed" witnesses), `Fix.all` the code with every guard.  A repair of a single function in
+/repo is mirrored by flipping a single flag in `Fix.current`. -/
 structure Fix where
-  /-- `extraAttribute.deserialize`: `if len(b) < sszSize+n { return 0, ErrCorruptedData }` -/
+  /-- `extraAttribute.deserialize`: `if n > maxExtraLen || len(b) < sszSize+n { return 0, ErrCorruptedData }`
+  before the `make` (PRESENT in /repo) -/
   extraLen : Bool := false
-  /-- `TxHeader.ReadFrom`: `if len(b) < i+sha256.Size+txIDSize { return ErrCorruptedData }` before `Eh` -/
+  /-- `TxHeader.ReadFrom`: `if len(b) < i+sha256.Size+txIDSize+sha256.Size { return ErrCorruptedData }`
+  before `Eh` (PRESENT in /repo) -/
   hdrTail : Bool := false
-  /-- `ReplicateTx`: `if len(exportedTx) < i+lszSize { … }` before `vLen` -/
+  /-- `ReplicateTx`: `if len(exportedTx) < i+lszSize { … }` before `vLen` (PRESENT in /repo) -/
   vLen : Bool := false
-  /-- `ReplicateTx`: `if len(exportedTx) < i+sszSize { … }` before `tLen` -/
+  /-- `ReplicateTx`: `if len(exportedTx) < i+sszSize { … }` before `tLen` (PRESENT in /repo) -/
   tLen : Bool := false
-  /-- `ReplicateTx`: `if len(v) == 0 { … }` before `v[0]` -/
+  /-- `ReplicateTx`: `if len(v) == 0 || v[0] > 1 { … }` instead of `if len(v) > 0 && v[0] > 1 { … }`
+  before `v[0]` (PRESENT in /repo) -/
   tZero : Bool := false
-  /-- `appendable.Metadata.ReadFrom`: `if len(lenb) < 4 { … }` before `Uint32(lenb)` -/
+  /-- `appendable.Metadata.ReadFrom`: `if len(lenb) < 4 { … }` before `Uint32(lenb)` (absent) -/
   appCount : Bool := false
   deriving DecidableEq, Repr
 
 def Fix.none : Fix := {}
 def Fix.all : Fix := ⟨true, true, true, true, true, true⟩
+/-- The code as it stands in /repo. -/
+def Fix.current : Fix := { extraLen := true, hdrTail := true, vLen := true, tLen := true, tZero := true }
 
 @[simp] theorem Fix.none_extraLen : Fix.none.extraLen = false := rfl
 @[simp] theorem Fix.none_hdrTail : Fix.none.hdrTail = false := rfl
@@ -193,5 +200,11 @@ def Fix.all : Fix := ⟨true, true, true, true, true, true⟩
 @[simp] theorem Fix.all_tLen : Fix.all.tLen = true := rfl
 @[simp] theorem Fix.all_tZero : Fix.all.tZero = true := rfl
 @[simp] theorem Fix.all_appCount : Fix.all.appCount = true := rfl
+@[simp] theorem Fix.current_extraLen : Fix.current.extraLen = true := rfl
+@[simp] theorem Fix.current_hdrTail : Fix.current.hdrTail = true := rfl
+@[simp] theorem Fix.current_vLen : Fix.current.vLen = true := rfl
+@[simp] theorem Fix.current_tLen : Fix.current.tLen = true := rfl
+@[simp] theorem Fix.current_tZero : Fix.current.tZero = true := rfl
+@[simp] theorem Fix.current_appCount : Fix.current.appCount = false := rfl
 
 end ImmuModel.Go
